@@ -227,3 +227,139 @@ from pyvc.values import real, to_term  # noqa: E402
 
 for _cls, _nm in ((NP, "nonparametric"), (GA, "gaussian"), (BO, "bootstrap")):
     unit("C14", f"gate.{_nm}.any_number_of_levels", fns=[f"{CL}.get_estimates", f"{_cls}.get_minimum_reporting_units"])(lambda h, _cls=_cls: _gate_any_number_of_levels(h, _cls))
+
+
+# ---- "Duplicate reporting unit ids are rejected with a client error" --------------------------------------------------------
+class _IdRows:
+    """reporting_units of which only the unit-id column matters here: n rows, ids NOT assumed unique"""
+
+    def __init__(self, h):
+        from pyvc.values import Space
+
+        self.h = h
+        self.rows = Space("reporting_rows")
+        h.syms["n_reporting_rows"] = self.rows.n
+        h.ctx.assume(z3.And(*self.rows.facts()))
+        self.fips = z3.Function("reporting_unit_id", z3.IntSort(), z3.StringSort())
+        h.syms["reporting_unit_id"] = self.fips
+        self.cnt = z3.Function("occurrences_of_id", z3.StringSort(), z3.IntSort())  # value_counts(): id -> how many rows
+        self.w1 = z3.Function("first_row_with_id", z3.StringSort(), z3.IntSort())
+        self.w2 = z3.Function("second_row_with_id", z3.StringSort(), z3.IntSort())
+        self.ids_done, self.pairs_done = [], []
+
+    def inr(self, i):
+        return z3.And(i >= 0, i < self.rows.n)
+
+    def at_id(self, k):
+        """lemma count_gt_one_iff (=>) at the id k: more than one occurrence -> two different rows carry it"""
+        c = self.h.ctx
+        if any(z3.eq(k, x) for x in self.ids_done):
+            return
+        self.ids_done.append(k)
+        a, b = self.w1(k), self.w2(k)
+        c.assume(self.cnt(k) >= 0)
+        c.assume(z3.Implies(self.cnt(k) > 1, z3.And(self.inr(a), self.inr(b), a != b, self.fips(a) == k, self.fips(b) == k)))
+
+    def at_pair(self, i, j):
+        """lemma count_gt_one_iff (<=) at the rows i, j: two different rows with one id -> the id occurs more than once"""
+        c = self.h.ctx
+        self.pairs_done.append((i, j))
+        c.assume(z3.Implies(z3.And(self.inr(i), self.inr(j), i != j, self.fips(i) == self.fips(j)), self.cnt(self.fips(i)) > 1))
+
+    def pyvc_getitem(self, interp, key):
+        if key == "geographic_unit_fips":
+            return _IdSeries(self)
+        raise Undecided(f"reporting_units[{key!r}] in the duplicate check")
+
+
+class _IdSeries:
+    def __init__(self, w):
+        self.w = w
+
+    def pyvc_getattr(self, interp, name):
+        if name == "value_counts":
+            from pyvc import theory_np
+
+            theory_np._use("A-VALUECOUNTS: Series.value_counts() maps each value to its number of occurrences; s[s > c] keeps the entries above c; .to_dict() has one item per kept entry")
+            return lambda: _Counts(self.w, None)
+        raise Undecided(f"Series.{name} in the duplicate check")
+
+
+class _Counts:
+    """value_counts() (keep is None) or its selection by a threshold mask (keep = lambda count: Bool)"""
+
+    def __init__(self, w, keep):
+        self.w, self.keep = w, keep
+
+    def pyvc_compare(self, interp, op, other, swapped):
+        if self.keep is not None or swapped or not isinstance(other, int):
+            return NotImplemented
+        import operator
+
+        ops = {"Gt": operator.gt, "GtE": operator.ge, "Lt": operator.lt, "LtE": operator.le, "Eq": operator.eq, "NotEq": operator.ne}
+        if op not in ops:
+            return NotImplemented
+        return _CountMask(self.w, lambda c, f=ops[op], o=other: f(c, o))
+
+    def pyvc_getitem(self, interp, key):
+        if isinstance(key, _CountMask) and self.keep is None and key.w is self.w:
+            return _Counts(self.w, key.pred)
+        raise Undecided("indexing value_counts() with something that is not a mask of it")
+
+    def pyvc_getattr(self, interp, name):
+        if name == "to_dict":
+            return lambda: self
+        raise Undecided(f"value_counts().{name}")
+
+    def pyvc_len(self, interp):
+        """number of kept ids: a symbol n >= 0 with  n > 0  <=>  some id is kept (Skolem id + instances at the ids in play)"""
+        w, h = self.w, self.w.h
+        keep = self.keep or (lambda c: z3.BoolVal(True))
+        n = z3.Int("number_of_kept_ids")
+        kstar = z3.String("some_kept_id")
+        h.ctx.assume(n >= 0)
+        w.at_id(kstar)
+        h.ctx.assume(z3.Implies(n > 0, z3.And(w.cnt(kstar) >= 1, keep(w.cnt(kstar)))))
+        self.instance = lambda k: h.ctx.assume(z3.Implies(z3.And(w.cnt(k) >= 1, keep(w.cnt(k))), n > 0))
+        for k in [w.fips(w.rows.u), w.fips(w.rows.u2)] + list(getattr(w, "extra_ids", [])):
+            w.at_id(k)
+            self.instance(k)
+        return V(n)
+
+    def pyvc_str(self, interp):
+        return V(z3.String("duplicate_units_text"))
+
+
+class _CountMask:
+    def __init__(self, w, pred):
+        self.w, self.pred = w, pred
+
+
+@unit("C14", "gate.duplicate_reporting_unit_ids_are_rejected", fns=[f"{CL}.get_estimates"])
+def duplicates(h):
+    """the real statements of get_estimates after the gate: a ModelClientException is raised if and only if two different
+    rows of the reporting units carry the same unit id"""
+    w = _IdRows(h)
+    # the statement's condition, with Skolem witnesses: dup <=> two different rows with one id
+    dup = z3.Bool("two_different_rows_share_an_id")
+    p, q = z3.Int("dup_row_p"), z3.Int("dup_row_q")
+    h.ctx.assume(z3.Implies(dup, z3.And(w.inr(p), w.inr(q), p != q, w.fips(p) == w.fips(q))))
+
+    def dup_instance(i, j):
+        h.ctx.assume(z3.Implies(z3.And(w.inr(i), w.inr(j), i != j, w.fips(i) == w.fips(j)), dup))
+
+    dup_instance(w.rows.u, w.rows.u2)
+    w.extra_ids = [w.fips(p), w.fips(q)]
+    w.at_pair(p, q)
+    w.at_pair(w.rows.u, w.rows.u2)
+    self = h.obj(CL)
+    rp = lambda ev: {"target": "verif_replays:duplicate_units_replay", "args": [], "check": "result['exc'] is None and result['ok']"}  # noqa: E731
+    h.default_replay = rp
+    kind, env = h.slice(f"{CL}.get_estimates", first_assign="units_by_count", until_raise="ModelClientException", env={"self": self, "reporting_units": w})
+    kstar = z3.String("some_kept_id")
+    dup_instance(w.w1(kstar), w.w2(kstar))
+    if kind == "raise":
+        h.ensures("raises_the_client_error", env.clsname == "ModelClientException", why=str(env), replay=rp)
+        h.ensures("raises_only_if_two_rows_share_an_id", dup, replay=rp)
+    else:
+        h.ensures("passes_only_if_all_reporting_unit_ids_are_different", z3.Not(dup), replay=rp)
